@@ -174,9 +174,10 @@ def died_in_code_under_test(r):
     return None
 
 
-def run_bin(ctx, name, args, parallel=True, timeout=3600, want_json=True, features=()):
+def run_bin(ctx, name, args, parallel=True, timeout=3600, want_json=True, features=(), prefix=()):
+    """`prefix`: a launcher in front of the binary (e.g. taskset -c 0: the process confined to one CPU)."""
     d = build_harness(parallel, features)
-    r = subprocess.run([os.path.join(d, name)] + [str(a) for a in args], stdout=subprocess.PIPE,
+    r = subprocess.run(list(prefix) + [os.path.join(d, name)] + [str(a) for a in args], stdout=subprocess.PIPE,
                        stderr=subprocess.PIPE, text=True, timeout=timeout)
     if r.returncode != 0:
         died = died_in_code_under_test(r)
